@@ -5,6 +5,7 @@ import NdnProofs.Lemmas.Lvs.CompileVDet
 import NdnProofs.Lemmas.Lvs.CompileExample
 import NdnProofs.Lemmas.Lvs.SrcExec
 import NdnProofs.Lemmas.Lvs.SrcRename
+import NdnProofs.Lemmas.Lvs.KeyInj
 /-!
 # C11 — a compiled trust schema matches exactly the names it describes (compiled-model level)
 
@@ -40,17 +41,20 @@ compiler output); and all layers of `compile_correct`:
   position by position, a chain carries the numbered form of what the expansion has there);
 * **a chain accepts what its expansion matches** (`impl_run`), **node merging** (`tree_eq_chains`,
   `checker_reports_iff_chain`: the tree accepts at a node carrying rule `r` iff one of the chains of `r` accepts, given
-  that the merge key determines tag and constraints — `KeyInj`, a hypothesis about the string encoding of the key, which
-  follows from a computable test the drivers evaluate on every generated schema, `merge_key_test_sound`);
-* composed: **`compile_correct`** — `Checker.match` on the compiled model reports rule `rid` with bindings `σ'` iff the name
-  matches `rid` as written with these bindings (`compile_correct_named`: for the text as written, when `rid` is not a
-  temporary rule; temporary rules are judged under the identifier pass 1 gives them).
+  that the merge key determines tag and constraints — `KeyInj`, a fact about the string encoding of the key, proved for
+  every schema the parser can produce: `keyInj_of_wf`; the key text parses back uniquely because numbers are printed in
+  decimal, literals in hex, and a user-function name — `$` + C identifier — contains none of the separators `(` `,` `}`;
+  without that condition on the names the key is not injective: `keyInj_counterexample`);
+* composed: **`compile_correct_wf`** (= `compile_correct` with its hypothesis `KeyInj` discharged) — `Checker.match` on the
+  compiled model reports rule `rid` with bindings `σ'` iff the name matches `rid` as written with these bindings
+  (`compile_correct_named_wf`: for the text as written, when `rid` is not a temporary rule; temporary rules are judged under
+  the identifier pass 1 gives them).  The computable test `keyInjB` the drivers evaluate on every generated schema is now a
+  cross-check of the model against the theorem: it is true on every well-formed schema (`merge_key_test_holds`).
 * the executable form of the source semantics (`srcMatch`, which the drivers run and the harness compares with the real
   `Checker.match` and with the Python oracle on every generated schema and name) computes `SrcMatches`
   (`srcMatch_computes`).
 
-**What is not proved**: `KeyInj` as a general fact about the key encoding (it is a hypothesis of `compile_correct`,
-discharged schema by schema by the computable test); model = code (sampled by the correspondence run).
+**What is not proved**: model = code (sampled by the correspondence run).
 -/
 namespace Ndn.C11
 open Ndn Ndn.Lvs
@@ -162,6 +166,38 @@ theorem checker_reports_iff_chain (S : Schema) (hwf : S.WF) (m : Model) (syms : 
   · intro ⟨n, node, hm, hn, hr⟩
     exact ⟨n, node, (compiled_match_iff S hwf m syms h env henv name σ n σ').mpr hm, hn, hr⟩
 
+/-- **keyInj_of_wf.** The hypothesis `KeyInj` as a general fact: for every schema the parser can produce (`Schema.WF`: literals
+    are encoded components, a user-function name is non-empty and contains none of `(` `,` `}` — the grammar gives `$` followed
+    by letters, digits and `_`), the merge key `pattern_movement` computes (`str(tag) + ':' + '{' option ',' … '}' …`, an option
+    `v=`hex / `t=`number / `name(`arguments`)`) determines the tag and the encoded constraints on the chains of the schema. -/
+theorem keyInj_of_wf (S : Schema) (hwf : S.WF) (chains : List Chain) (syms : List String)
+    (h : chainsOf S = .ok (chains, syms)) : KeyInj chains :=
+  Ndn.Lvs.keyInj_of_wf S hwf chains syms h
+
+/-- **merge_key_test_holds.** The computable test the drivers evaluate is equivalent to `KeyInj` (`merge_key_test_sound` is the
+    other direction), so it is true on the chains of every well-formed schema: a `0` from the driver is a disagreement between
+    the model and this theorem's domain (a schema outside what the parser can produce), never a property of a parsed text. -/
+theorem merge_key_test_holds (S : Schema) (hwf : S.WF) (chains : List Chain) (syms : List String)
+    (h : chainsOf S = .ok (chains, syms)) : keyInjB chains = true :=
+  keyInjB_of_wf S hwf chains syms h
+
+/-- **keyInj_counterexample.** The condition on user-function names is needed: with a `,` (resp. `}`) inside a name, two chains
+    whose pattern carries different constraints — one option `$f(),$g()` against the two options `$f()`, `$g()`; one constraint
+    against two — get the same merge key, so `_generate_node` would give both the constraints of the first.  (No schema text
+    produces such a name: `FN_IDENT: "$" CNAME`.) -/
+theorem keyInj_counterexample : ¬ KeyInj badCommaChains ∧ ¬ KeyInj badBraceChains :=
+  ⟨fun h => Bool.false_ne_true (badChains_keyInjB.1.symm.trans (keyInjB_of_keyInj _ h)),
+   fun h => Bool.false_ne_true (badChains_keyInjB.2.symm.trans (keyInjB_of_keyInj _ h))⟩
+
+/-- **checker_reports_iff_chain_wf.** `checker_reports_iff_chain` without the merge-key hypothesis. -/
+theorem checker_reports_iff_chain_wf (S : Schema) (hwf : S.WF) (m : Model) (syms : List String) (chains : List Chain)
+    (h : compile S = .ok (m, syms)) (hch : chainsOf S = .ok (chains, syms))
+    (env : FnEnv) (henv : EnvTotal env) (σ : Ctx) (hσ : CtxLe syms.length σ) (name : List Bytes) (σ' : Ctx)
+    (rid : String) :
+    (∃ n node, (n, σ') ∈ (matchIter m env name σ).outs ∧ m.nodes[n]? = some node ∧ rid ∈ node.ruleNames) ↔
+      ∃ rc ∈ chains, rc.id = rid ∧ ChainRun (pureOf env) rc rc.name [] σ name σ' :=
+  checker_reports_iff_chain S hwf m syms chains h hch (keyInj_of_wf S hwf chains syms hch) env henv σ hσ name σ' rid
+
 /-! ### source text = compiled model -/
 
 /-- **compile_correct** (source semantics = what `Checker.match` reports on the compiled model).
@@ -181,6 +217,16 @@ theorem compile_correct (S : Schema) (hwf : S.WF) (m : Model) (syms : List Strin
   rw [checker_reports_iff_chain S hwf m syms chains h hch (hkey chains hch) env henv (encCtx syms σ)
     (ctxLe_encCtx hσ) name σn' rid]
   exact chains_iff_src S chains syms hch (pureOf env) σ hσ name σn' rid
+
+/-- **compile_correct_wf** (`compile_correct` with no hypothesis left on the merge key).  For every schema the parser can produce
+    that compiles, total user functions and initial bindings `σ` over the named patterns: the iterative checker yields a node
+    carrying rule `rid`, with bindings `σn'`, **iff** the name matches rule `rid` as written (`SrcMatches`) with bindings `σ'`
+    whose numbered form is `σn'`. -/
+theorem compile_correct_wf (S : Schema) (hwf : S.WF) (m : Model) (syms : List String) (h : compile S = .ok (m, syms))
+    (env : FnEnv) (henv : EnvTotal env) (σ : SCtx) (hσ : SCtxIn syms σ) (name : List Bytes) (σn' : Ctx) (rid : String) :
+    (∃ n node, (n, σn') ∈ (matchIter m env name (encCtx syms σ)).outs ∧ m.nodes[n]? = some node ∧ rid ∈ node.ruleNames) ↔
+      ∃ σ', σn' = encCtx syms σ' ∧ SrcMatches ⟨renameTemps S.rules 1⟩ (pureOf env) rid σ name σ' :=
+  compile_correct S hwf m syms h (fun chains hch => keyInj_of_wf S hwf chains syms hch) env henv σ hσ name σn' rid
 
 /-- **compile_correct_keytest.** `compile_correct` for `Checker.match` (no initial bindings), with the merge-key hypothesis
     replaced by the computable test the drivers evaluate on every generated schema. -/
@@ -203,6 +249,14 @@ theorem compile_correct_named (S : Schema) (hwf : S.WF) (m : Model) (syms : List
   constructor
   · rintro ⟨σ', he, hm⟩; exact ⟨σ', he, (srcMatches_rename S _ rid hrid σ name σ').mp hm⟩
   · rintro ⟨σ', he, hm⟩; exact ⟨σ', he, (srcMatches_rename S _ rid hrid σ name σ').mpr hm⟩
+
+/-- **compile_correct_named_wf.** `compile_correct_named` with no hypothesis left on the merge key. -/
+theorem compile_correct_named_wf (S : Schema) (hwf : S.WF) (m : Model) (syms : List String) (h : compile S = .ok (m, syms))
+    (env : FnEnv) (henv : EnvTotal env) (σ : SCtx) (hσ : SCtxIn syms σ) (name : List Bytes) (σn' : Ctx) (rid : String)
+    (hrid : isTempRule rid = false) :
+    (∃ n node, (n, σn') ∈ (matchIter m env name (encCtx syms σ)).outs ∧ m.nodes[n]? = some node ∧ rid ∈ node.ruleNames) ↔
+      ∃ σ', σn' = encCtx syms σ' ∧ SrcMatches S (pureOf env) rid σ name σ' :=
+  compile_correct_named S hwf m syms h (fun chains hch => keyInj_of_wf S hwf chains syms hch) env henv σ hσ name σn' rid hrid
 
 /-- **chains_are_expansions** (numbering + replication).  The chains the tree is generated from are, rule by rule, the
     expansions of the definitions of the text: every chain implements (`Impl`) an expansion of a definition with its
@@ -262,6 +316,8 @@ example : (matchIter model allFns [cD, cE] []).outs = [(2, [(1, cE)])] := by dec
 example : compile Example.schema = .ok (Example.model, ["x"]) := Example.compile_schema
 example : VDet Example.model := compiled_vdet _ _ _ Example.compile_schema
 example : KeyInj Example.chains := merge_key_test_sound _ (by decide)
+example : KeyInj Example.chains := keyInj_of_wf Example.schema Example.schema_wf _ _ Example.chainsOf_schema
+example : keyInjB Example.chains = true := merge_key_test_holds Example.schema Example.schema_wf _ _ Example.chainsOf_schema
 /-- node merging on the example: `/d/e` reaches a node of `#p` with `x = e` iff a chain of `#p` runs on it -/
 example : ∃ rc ∈ Example.chains, rc.id = "#p" ∧
     ChainRun (pureOf Example.allFns) rc rc.name [] [] [Example.cD, Example.cE] [(1, Example.cE)] :=
@@ -306,6 +362,16 @@ example : ∃ σ', [(1, Example.cE)] = encCtx ["x"] σ' ∧
       rw [← hch.1]; decide)
     Example.allFns (fun _ => ⟨_, rfl, fun _ _ => ⟨true, rfl⟩⟩) [Example.cD, Example.cE] [(1, Example.cE)] "#p").mp
     ⟨2, Example.model.nodes[2], by decide, rfl, by decide⟩
+/-- `compile_correct_wf` on the example, in the other direction: the text matches `/d/e` under `#p` with `x = e`, so the checker
+    reports a node of `#p` with tag 1 ↦ `e` -/
+example : ∃ n node, (n, encCtx ["x"] [("x", Example.cE)]) ∈ (matchIter Example.model Example.allFns [Example.cD, Example.cE] (encCtx ["x"] [])).outs ∧
+    Example.model.nodes[n]? = some node ∧ "#p" ∈ node.ruleNames :=
+  (compile_correct_wf Example.schema Example.schema_wf Example.model ["x"] Example.compile_schema
+    Example.allFns (fun _ => ⟨_, rfl, fun _ _ => ⟨true, rfl⟩⟩) [] (by intro p hp; simp at hp) [Example.cD, Example.cE] _ "#p").mpr
+    ⟨[("x", Example.cE)], rfl, by
+      cases h : sortRuleReferences Example.schema with
+      | ok r => exact (srcMatch_computes Example.schema r h _ [] _ "#p" _).mp (by decide +kernel)
+      | error e => have := chainsOf_of_sort_error h; rw [Example.chainsOf_schema] at this; simp at this⟩
 example : ∀ q f, Expands ⟨renameTemps Example.schema.rules 1⟩ q f → ∃ c ∈ Example.chains, c.id = q ∧ Impl ["x"] c f :=
   (chains_are_expansions Example.schema Example.chains ["x"] Example.chainsOf_schema).2
 example : ∃ rc ∈ Example.chains, rc.id = "#k" ∧
